@@ -441,62 +441,68 @@ def r3_comparisons(ctx, sym):
                               "CPython raises TypeError for `%s in %s` but %s.allows_membership accepts it" % (
                                   lt.__name__, rt.__name__, rcls),
                               "x = %r; y = %r; x in y" % (REPS[lt][-1], REPS[rt][-1]), construct=key)
-    # visit_Compare
+    # visit_Compare, executed abstractly for every comparison operator x {ordering allowed or not} x {membership
+    # allowed or not}, also inside a chained comparison
+    from .. import symexec
+    from ..fdeval import Obj as _Obj
     vmod = ctx.repo.module(VISITOR)
     vc = vmod.func('Tifa.visit_Compare')
     ctx.analysed_function(vmod, vc)
-    loop = [x for x in body_walk(vc) if isinstance(x, ast.For)]
-    ctx.require(len(loop) >= 1, "visit_Compare has no loop over the operators")
-    loop = loop[-1]
-    arms = []
-    node = loop.body[0] if loop.body and isinstance(loop.body[0], ast.If) else None
-    ctx.require(node is not None, "visit_Compare loop does not start with the operator dispatch")
-    while node is not None:
-        arms.append(node)
-        node = node.orelse[0] if len(node.orelse) == 1 and isinstance(node.orelse[0], ast.If) else None
-    want = {
-        frozenset(['ast.Eq', 'ast.NotEq', 'ast.Is', 'ast.IsNot']): None,
-        frozenset(['ast.Lt', 'ast.LtE', 'ast.GtE', 'ast.Gt']): 'type(right) in left.orderable',
-        frozenset(['ast.In', 'ast.NotIn']): 'right.allows_membership(left)',
-    }
-    seen = set()
-    for arm in arms:
-        t = arm.test
-        if not (isinstance(t, ast.Call) and call_name(t) == 'isinstance' and norm(t.args[0]) == 'op'):
-            raise AnalysisError("C19 R3: unrecognised visit_Compare arm %s" % norm(t))
-        ops = frozenset(dotted(x) for x in (t.args[1].elts if isinstance(t.args[1], ast.Tuple) else [t.args[1]]))
-        key = 'visit_Compare:' + '/'.join(sorted(o.split('.')[1] for o in ops))
-        if ops not in want:
-            ctx.fail('R3', key, vmod, arm, "operator group %s is not one of CPython's three comparison families "
-                     "(identity/equality, ordering, membership)" % sorted(ops),
-                     "a comparison of that group is skipped or checked by the wrong rule")
-            continue
-        seen.add(ops)
-        guard = want[ops]
-        if guard is None:
-            ok = len(arm.body) == 1 and isinstance(arm.body[0], ast.Continue)
-        else:
-            ok = (len(arm.body) == 1 and isinstance(arm.body[0], ast.If) and norm(arm.body[0].test) == guard
-                  and len(arm.body[0].body) == 1 and isinstance(arm.body[0].body[0], ast.Continue)
-                  and not arm.body[0].orelse)
-        ctx.check(ok, 'R3', key, vmod, arm,
-                  "arm for %s does not skip exactly under `%s`" % (sorted(ops), guard or 'always'),
-                  "x = 'a'; y = 1; x < y", construct=norm(arm.test))
-    ctx.check(seen == set(want), 'R3', 'visit_Compare:families', vmod, vc,
-              "not all three comparison families are dispatched", "x < y / x in y")
-    tail = loop.body[-1]
-    ok = isinstance(tail, ast.Expr) and isinstance(tail.value, ast.Call) and norm(tail.value.func) == 'self._issue' \
-        and any(True for _ in calls(tail, 'incompatible_types'))
-    ctx.check(ok, 'R3', 'visit_Compare:issue', vmod, loop,
-              "the loop does not end by issuing incompatible_types for operators that were not skipped",
-              "x = 'a'; y = 1; x < y", construct='self._issue(incompatible_types(...))')
+    families = {'Eq': 'equality', 'NotEq': 'equality', 'Is': 'equality', 'IsNot': 'equality',
+                'Lt': 'ordering', 'LtE': 'ordering', 'Gt': 'ordering', 'GtE': 'ordering',
+                'In': 'membership', 'NotIn': 'membership'}
+    n_cmp = 0
+    for opname, family in families.items():
+        for orderable_ok in (True, False):
+            for member_ok in (True, False):
+                for chained in (False, True):
+                    n_cmp += 1
+                    rec = symexec.Recorder()
+                    right_t = _Obj('right-type', __cls__='RightType')
+                    symexec.method(right_t, 'allows_membership', lambda l: member_ok)
+                    left_t = _Obj('left-type', __cls__='LeftType',
+                                  orderable=frozenset(['RightType']) if orderable_ok else frozenset())
+                    symexec.method(left_t, 'allows_membership', lambda l: True)
+                    left_t.attrs['orderable'] = left_t.attrs['orderable'] | (frozenset(['LeftType']))
+                    types = {'L': left_t, 'R': right_t}
+                    ops = [_Obj('op', __astclass__=opname)]
+                    comps = [_Obj('expr', tag='R')]
+                    if chained:
+                        # a harmless first link (left == left) in front of the operator under test
+                        ops = [_Obj('op', __astclass__='Eq')] + ops
+                        comps = [_Obj('expr', tag='L')] + comps
+                    node = _Obj('Compare', left=_Obj('expr', tag='L'), ops=ops, comparators=comps)
+                    me = symexec.self_obj(vmod, 'Tifa', report=_Obj('report'))
+                    symexec.method(me, 'visit', lambda x: types[x.attrs['tag']])
+                    symexec.method(me, 'locate', lambda *a: 'here')
+                    symexec.method(me, '_issue', rec.stub('_issue'))
+
+                    def b_isinstance(o, t):
+                        ts = t if isinstance(t, tuple) else (t,)
+                        return isinstance(o, _Obj) and any(isinstance(x, str) and x == 'ast.' + str(
+                            o.attrs.get('__astclass__')) for x in ts)
+                    fd = symexec.new_fd(sym, vmod, calls={
+                        'isinstance': b_isinstance, 'type': lambda o: o.attrs.get('__cls__') if isinstance(o, _Obj) else type(o),
+                        'incompatible_types': rec.stub('incompatible_types', ret=_Obj('feedback')),
+                        'BoolType': lambda *a: _Obj('BoolType')})
+                    _, raised = symexec.run(fd, vc, [node], bound_self=me, what='Tifa.visit_Compare')
+                    issued = len(rec.named('_issue'))
+                    want = 0 if family == 'equality' else (
+                        (0 if orderable_ok else 1) if family == 'ordering' else (0 if member_ok else 1))
+                    ctx.check(raised is None and issued == want, 'R3',
+                              'visit_Compare:%s[orderable=%s,membership=%s%s]' % (
+                                  opname, orderable_ok, member_ok, ',chained' if chained else ''), vmod, vc,
+                              "operator %s (%s family) with the right type %sin left.orderable and "
+                              "right.allows_membership(left)=%s: %d incompatible-types issue(s), expected %d%s" % (
+                                  opname, family, '' if orderable_ok else 'not ', member_ok, issued, want,
+                                  '' if raised is None else '; raises ' + raised.kind),
+                              "x = 'a'; y = 1; x < y   /   1 in 5", construct='visit_Compare')
+    ctx.floor('R3', 'visit_Compare scenarios', n_cmp, 60)
 
 
 def r4_value_typing(ctx, sym):
-    ctx.rule('R4', "get_pedal_type_from_value: (a) no generator is stored by a Type constructor (one-shot "
-                   "iterables make the type unstable), (b) no subscript of a value that may be a set/frozenset, "
-                   "(c) bool is tested before int and the chain covers the JSON-like types, (d) each branch's class "
-                   "conforms to the normalised form of the Python type")
+    ctx.rule('R4', "get_pedal_type_from_value: no generator is stored by a Type constructor (one-shot iterables make "
+                   "the type unstable on repeated queries); the per-value classes are decided by R4e")
     mod = ctx.repo.module(NORM)
     fn = mod.func('get_pedal_type_from_value')
     ctx.analysed_function(mod, fn)
@@ -551,67 +557,11 @@ def r4_value_typing(ctx, sym):
                           "an empty sequence" % (c.name, stored[0].targets[0].attr if stored else '?'),
                           "t = get_pedal_type_from_value((1, 'a')); is_subtype(t, t) differs between the first "
                           "and the second call")
-    # (b)/(c) chain
-    chain = []
-    for st in fn.body:
-        if isinstance(st, ast.If) and isinstance(st.test, ast.Call) and call_name(st.test) == 'isinstance' \
-                and norm(st.test.args[0]) == value:
-            t = st.test.args[1]
-            names = [norm(x) for x in (t.elts if isinstance(t, ast.Tuple) else [t])]
-            chain.append((names, st))
-    flat = [n for names, _ in chain for n in names]
-    ctx.floor('R4', 'isinstance branches', len(chain), 8)
-    ctx.check('bool' in flat and 'int' in flat and flat.index('bool') < flat.index('int'), 'R4',
-              'get_pedal_type_from_value:bool-before-int', mod, fn,
-              "bool is not tested before int (bool is a subclass of int)",
-              "get_pedal_type_from_value(True) is typed as an integer", construct='isinstance chain')
-    need = ['int', 'float', 'bool', 'str', 'type(None)', 'list', 'tuple', 'dict', 'set']
-    for t in need:
-        ctx.check(t in flat, 'R4', 'get_pedal_type_from_value:covers:' + t, mod, fn,
-                  "no branch for values of type %s" % t, "get_pedal_type_from_value of a %s" % t,
-                  construct='isinstance chain')
-    unsub = {'set', 'frozenset', 'dict'}
-    for names, st in chain:
-        risky = [n for n in names if n in unsub]
-        if not risky:
-            continue
-        for n in ast.walk(ast.Module(body=st.body, type_ignores=[])):
-            if isinstance(n, ast.Subscript) and isinstance(n.value, ast.Name) and n.value.id == value \
-                    and isinstance(n.ctx, ast.Load) and not (risky == ['dict']):
-                ctx.fail('R4', 'get_pedal_type_from_value:subscript-of-set', mod, n,
-                         "`%s` is evaluated in a branch that also handles %s, which is not subscriptable" % (
-                             norm(n), '/'.join(risky)),
-                         "get_pedal_type_from_value({1, 'a'}) raises TypeError (heterogeneous set)")
-    ctx.ok('R4', 'get_pedal_type_from_value:subscript-scan', nontrivial=False)
-    # (d) conformance of the returned class
-    want = {'bool': 'BoolType', 'int': 'IntType', 'float': 'FloatType', 'str': 'StrType',
-            'type(None)': 'NoneType', 'tuple': 'TupleType', 'dict': 'DictType', 'complex': 'NumType'}
-    for names, st in chain:
-        if len(names) != 1 or names[0] not in want:
-            continue
-        rets = [n for n in ast.walk(ast.Module(body=st.body, type_ignores=[])) if isinstance(n, ast.Return)]
-        for r in rets:
-            if not isinstance(r.value, ast.Call):
-                raise AnalysisError("C19 R4: branch for %s returns a non-constructor" % names[0])
-            c = sym.resolve_expr(mod, r.value.func)
-            ok = isinstance(c, ClassInfo) and (
-                want[names[0]] in [k.name for k in sym.mro(c)] or
-                _parent_chain_has(sym, c, want[names[0]]))
-            ctx.check(ok, 'R4', 'get_pedal_type_from_value:conforms:' + names[0], mod, r,
-                      "a %s value is typed %s, which is not %s or a literal of it" % (
-                          names[0], getattr(c, 'name', norm(r.value.func)), want[names[0]]),
-                      "get_pedal_type_from_value(<%s value>)" % names[0])
-    # ELEMENT_TYPES table
-    et = literal(mod.top_assign('ELEMENT_TYPES'), resolve_consts=False)
-    for k, v in {'set': 'SetType', 'list': 'ListType', 'frozenset': 'FrozenSetType'}.items():
-        ctx.check(str(et.get(Sym(k))) == v, 'R4', 'ELEMENT_TYPES[%s]' % k, mod, mod.top_assign('ELEMENT_TYPES'),
-                  "%s values are typed %s, expected %s" % (k, et.get(Sym(k)), v),
-                  "get_pedal_type_from_value(%s())" % k, construct='ELEMENT_TYPES')
-
 
 
 def r4e_value_typing_executed(ctx, sym):
-    ctx.rule('R4e', "get_pedal_type_from_value executed abstractly on scalar representatives, in both orders within "
+    ctx.rule('R4e', "get_pedal_type_from_value executed abstractly on scalar and container representatives (the "
+                    "latter also when no common element type exists), in both orders within "
                     "one process (module-level state such as a cache is shared between the calls, as at run time): "
                     "the class of the result is the literal/plain pedal type of the value's own Python type. 1, 1.0 "
                     "and True are equal and hash alike, so any value-keyed memo confuses them")
@@ -625,30 +575,42 @@ def r4e_value_typing_executed(ctx, sym):
     for st in mod.tree.body:
         if isinstance(st, ast.FunctionDef):
             functions[st.name] = st
-    used = {n.id for f in functions.values() for n in ast.walk(f) if isinstance(n, ast.Name)}
+    used = {n.id for n in ast.walk(mod.tree) if isinstance(n, ast.Name)}
     for name in sorted(used):
         if name in functions:
             continue
         r = sym.resolve_name(mod, name)
         if isinstance(r, ClassInfo):
             standins[name] = (lambda nm: (lambda *a, **k: Obj(nm, args=a, __cls__=nm)))(r.name)
+            standins[name]._fd_class = r.name
         elif isinstance(r, tuple) and r and r[0] == 'func':
-            standins[name] = (lambda nm: (lambda *a, **k: Obj('result-of-' + nm, args=a, __cls__=None)))(name)
+            standins[name] = (lambda nm: (lambda *a, **k: (None if (nm == 'widest_type' and mode['widest_none'])
+                                                           else Obj('result-of-' + nm, args=a, __cls__=None))))(name)
         else:
             continue
         standins[name]._fd_callable = True
+    mode = {'widest_none': False}
+
     def _isinstance(v, t):
         ts = t if isinstance(t, tuple) else (t,)
-        if isinstance(v, Obj) or not all(isinstance(x, type) for x in ts):
-            raise Inconclusive('isinstance(%r, %r) on a symbolic operand' % (v, t))
-        return isinstance(v, ts)
+        if isinstance(v, Obj):
+            cls = v.attrs.get('__cls__')
+            ci = sym.find_class(TYPES, cls) if cls else None
+            names = [k.name for k in sym.mro(ci)] if ci is not None else []
+            return any(getattr(x, '_fd_class', None) in names for x in ts)
+        return isinstance(v, tuple(x for x in ts if isinstance(x, type)))
     calls['isinstance'] = _isinstance
     calls['type'] = lambda v: type(v)
     want = {bool: 'BoolType', int: 'IntType', float: 'FloatType', str: 'StrType', type(None): 'NoneType',
-            complex: 'NumType', tuple: 'TupleType'}
-    reps = [True, 1, 1.0, 0, 0.0, False, -1, -1.0, 'a', '', None, 1j, (1, 1.0), (1.0, 1), (True, 1), 2, 2.0]
+            complex: 'NumType', tuple: 'TupleType', list: 'ListType', set: 'SetType', frozenset: 'FrozenSetType',
+            dict: 'DictType'}
+    scalars = [True, 1, 1.0, 0, 0.0, False, -1, -1.0, 'a', '', None, 1j, (1, 1.0), (1.0, 1), (True, 1), 2, 2.0]
+    containers = [(), [], [1, 2], [1, 'a'], set(), {1}, {1, 'a'}, frozenset(), frozenset({1, 'a'}), {}, {'a': 1},
+                  {1: 'a', 2: 'b'}, {'a': 1, 'b': 'x'}, [[1], [2]], {'k': [1, 2]}]
     n = 0
-    for order_name, seq in (('forward', reps), ('backward', list(reversed(reps)))):
+    for order_name, seq in (('forward', scalars + containers), ('backward', list(reversed(scalars + containers))),
+                            ('no-common-element-type', containers)):
+        mode['widest_none'] = order_name == 'no-common-element-type'
         fd = FD(calls=calls, functions=functions, max_steps=200000,
                 resolver=module_resolver(sym, mod, extra=standins))
         for v in seq:
@@ -667,6 +629,8 @@ def r4e_value_typing_executed(ctx, sym):
                     return False
                 if not (want[type(val)] in [k.name for k in sym.mro(ci)] or _parent_chain_has(sym, ci, want[type(val)])):
                     return False
+                if isinstance(val, (list, set, frozenset, dict)):
+                    return True
                 if isinstance(val, tuple):
                     elems = t.attrs['args'][0] if t.attrs.get('args') else ()
                     try:
@@ -678,7 +642,9 @@ def r4e_value_typing_executed(ctx, sym):
                 a = t.attrs.get('args') or ()
                 return not a or (type(a[0]) is type(val) and a[0] == val)
             n += 1
-            ctx.check(conforms(got, v), 'R4e', 'get_pedal_type_from_value(%r):%s' % (v, order_name),
+            ctx.check(conforms(got, v), 'R4e', 'get_pedal_type_from_value(%s):%s' % (
+                repr(v) if not isinstance(v, (set, frozenset)) else '%s(%r)' % (type(v).__name__, sorted(v, key=repr)),
+                order_name),
                       mod, fn, "get_pedal_type_from_value(%r), called after %s in the same process, yields %s%s; "
                       "expected a %s" % (v, 'the earlier representatives', got,
                                          getattr(got, 'attrs', {}).get('args', ''), want[type(v)]),
